@@ -119,6 +119,28 @@ Resolve(t, order) ==
   [prolog |-> <<>>, nodes |-> <<NdRec("root", 0, <<>>, <<>>, <<>>, <<>>)>> \o Blocks(t, PrefixesOf(t), order, 1)]
 
 \* ---------------------------------------------------------------------------------------------
+\* edits through the DOM: a namespace declaration is an attribute, so set_attribute("xmlns:p", u) REPLACES the
+\* declaration of p written on the element (or adds one), remove_attribute removes it, and an element that is moved
+\* takes its declarations along and resolves the rest in its new place
+
+\* The text of a case is the serialization of the RESOLVED document, which writes on every element exactly the
+\* bindings that differ from its parent's scope (XPathDoc!SerDecls): the tree "as written" is this canonical one.
+CanonDecls(t, P, order, k) ==
+  LET sc  == Scope(t, P, k)
+      psc == IF t[k].p = 0 THEN [x \in P |-> IF x = XmlPre THEN XmlUri ELSE NoneU] ELSE Scope(t, P, t[k].p)
+      ch  == SeqOfSet(order, { x \in P : x # XmlPre /\ sc[x] # psc[x] })
+  IN  [j \in 1..Len(ch) |-> <<ch[j], IF sc[ch[j]] = NoneU THEN <<>> ELSE sc[ch[j]]>>]
+Canon(t, order) == LET P == PrefixesOf(t) IN [k \in 1..NE(t) |-> [t[k] EXCEPT !.decls = CanonDecls(t, P, order, k)]]
+
+SetDecl(t, k, x, u) ==
+  [t EXCEPT ![k].decls = IF Declares(t, k, x)
+                         THEN [j \in 1..Len(@) |-> IF @[j][1] = x THEN <<x, u>> ELSE @[j]]
+                         ELSE Append(@, <<x, u>>)]
+RemoveDecl(t, k, x) == [t EXCEPT ![k].decls = SelectSeq(@, LAMBDA dd : dd[1] # x)]
+\* the LAST element (no element follows it, so document order is unchanged) becomes the last child of element k
+MoveLastUnder(t, k) == [t EXCEPT ![NE(t)].p = k]
+
+\* ---------------------------------------------------------------------------------------------
 \* consistent renaming of prefixes in the document (sigma: a bijection on prefixes fixing xml and the default)
 
 RenameTree(t, s) ==
